@@ -280,6 +280,23 @@ def _run(scn, res, wd):
     except tapeload.ToolError as e:
         return fail(res, 'C12/tool-error', str(e))
     text = tapeload.stripped(out)
+    if 'PC at start address' not in text and scn['kind'] == '48' and scn['stack'] < 16384 + 22:
+        # Hazard of the documented minimum stack (man page: 14 bytes): SA/LD-RET re-enables interrupts before its
+        # POP AF / RET; if the frame interrupt lands there the ROM's interrupt routine pushes 18 more bytes, and
+        # with STACK below 16406 some of them fall into ROM and are lost - on a real machine just as here.  That is
+        # a matter of where the frame interrupt lands, not of the tape: counterfactual = the same load with the
+        # whole tape shifted against the frame.  Only if a shifted load does reach the start address is the
+        # scenario discarded.
+        for delta in (23456, 46913):
+            cfg2 = dict(cfg)
+            cfg2['first-edge'] = cfg.get('first-edge', 0) + delta
+            try:
+                out2, st2, snap2 = tapeload.load(tape, scn['start'], cfg2, os.path.join(wd, 'shifted.szx'))
+            except tapeload.ToolError:
+                continue
+            if 'PC at start address' in tapeload.stripped(out2):
+                res['discard'] = 'frame interrupt inside SA/LD-RET with fewer than 22 bytes of stack above the ROM (STACK < 16406)'
+                return res
     if 'PC at start address' not in text:
         return fail(res, 'C12/not-started', 'simulated LOAD did not reach the start address %d: %s' % (scn['start'], text.strip().splitlines()[-3:]))
     bad = check_delivery(scn, exp, snap, st)
